@@ -265,7 +265,7 @@ def _obligations():
         Obligation("O4.7", "library calls on the STOPGAP conversion paths exist in the installed pandas", o47, floor=5),
         Obligation("O4.6a", "STAR writer on the via-file path: header and row text read back to the table (shared with C02)", lambda ctx: (_star.o23(ctx), _star.o25(ctx)), floor=200),
         Obligation("O4.8", "stopgap2emmotl with default options returns the table's fields renamed, nothing renumbered", o48, floor=14),
-        Obligation("O4.6c", "STAR tokenizer / writer text on the via-file path: every line seen, text tokenised into the expected roles (shared with C02)", _star.o22, floor=8),
+        Obligation("O4.6c", "STAR tokenizer / writer text on the via-file path: every line seen, text tokenised into the expected roles (shared with C02)", lambda ctx: (_star.o22(ctx), _star.o26(ctx)), floor=230),
         Obligation("O4.6b", "STAR reader on the via-file path: numeric conversion and block tables (shared with C02)", _star.o24, floor=5),
     ]
 
